@@ -213,25 +213,36 @@
           with more room (`monoR_addRrsetOp`, `monoR_addRrOp`); hence `addRrsetOp_trunc_down`: rejected
           with `Truncation` in the big room ⇒ `Truncation` (or a panic) in the small room.  No `CapPre`
           is needed: monotonicity covers every non-`Truncation` error;
-        · Proofs/ServerAnswerTwoRun.lean (new): `TwoP` — the two-run induction over query.rs
-          (`twoPF_inner`, `inner_two_run`): big-room success that fits the small room ⇒ small-room
-          success with the same log, dropped optional calls included; the relation carried between the
-          runs is `Same` (agreement on everything but the octets at and above the cursor) composed
-          with `lift d`;
-        · the named hypothesis `ServerAnswer.ScratchIndep` (Proofs/ServerAnswerTwoRun.lean), NOT proved:
-          a writer call of the answering phase (`set_aa`, `set_rcode`, `add_rr`, `add_rrset`) run on two
-          states that agree on everything but the octets at and above the cursor (`Same s t`, equal
-          hint vectors) has the same outcome and leaves two such states with equal hint vectors.  It is
-          needed because `with_rollback` restores the cursor and the counts but not the octets: after a
-          dropped optional call the two runs differ in the scratch area above the cursor.
-          `compress_decision s.octets …` is the only reader of the octets and has to be shown to look only
-          below the cursor (the global compression state points below the cursor: writer territory,
-          Proofs/Writer*.lean has the invariant for `CLay` states but no such congruence).
-      The assembly is done too: `C10_row3_compare_of : ScratchIndep → DecodeCongr → C10_row3_compare`,
-      hence `C10_full_of : ScratchIndep → DecodeCongr → C10_full` — **`C10_full` is proved modulo exactly
+        · Proofs/ServerAnswerTwoRunI.lean (new): the two-run induction over query.rs, localized at the
+          real plain run: the judgement `SafeX` = C01's `SafeP` (so the writer's invariant `Writer.I` and
+          the validity of every hint are at hand at each call — the same induction as
+          Proofs/ServerQuery.lean, run once more) plus `MonoAt` (cursor / ARCOUNT grow, `available` fixed)
+          plus `TwoAt`: if the run from a plain-run state succeeds, fits the signed room and leaves
+          ARCOUNT below its maximum, then the run from any signed-side state `A` related to it
+          (`Same A a0`, `lift R a0 = modS L T (plain state)`) that does not panic succeeds with the same
+          result and log — dropped optional calls included — and the final states are related again
+          (`inner_safeX`);
+        · the named hypothesis `ServerContent.ScratchIndepI` (Proofs/ServerAnswerTwoRunI.lean), NOT proved:
+            ∀ c u s t, Writer.I u → AnsPre c u → FieldsOnly u s → Same s t → s.hv = t.hv →
+              (c.run t).1 = (c.run s).1 ∧ Same (c.run s).2 (c.run t).2 ∧ (c.run s).2.hv = (c.run t).2.hv
+          — next to a state `u` that satisfies the writer's structural invariant and the call's
+          precondition (well-formed owner, valid hint: `AnsPre`), a writer call of the answering phase
+          (`set_aa`, `set_rcode`, `add_rr`, `add_rrset`) run on `s` (= `u` up to `limit`, `available`,
+          the TSIG slot and ARCOUNT: `FieldsOnly`) and on any `t` that agrees with `s` on everything but
+          the octets at and above the cursor has the same outcome and leaves two such states with equal
+          hint vectors.  It is needed because `with_rollback` restores the cursor and the counts but not
+          the octets: after a dropped optional call the two runs differ in the scratch area above the
+          cursor; `compress_decision s.octets …` is the only reader of the octets and has to be shown to
+          look only below the cursor (where `Writer.I` places every prior name and `HintOK` every hint).
+          (An earlier form without the invariant, `ServerAnswer.ScratchIndep` in
+          Proofs/ServerAnswerTwoRun.lean, is FALSE for states whose prior names or hints point at or
+          above the cursor; it is kept only as the source of the pass and is used by nothing in C10.)
+      The assembly is done too: `C10_row3_compare_of : ScratchIndepI → DecodeCongr → C10_row3_compare`,
+      hence `C10_full_of : ScratchIndepI → DecodeCongr → C10_full` — **`C10_full` is proved modulo exactly
       two named hypotheses**, both facts about the writer / decoder alone (no server logic left):
-      (R1) `ServerAnswer.ScratchIndep` (Proofs/ServerAnswerTwoRun.lean, above) — a writer call of the
-           answering phase does not read octets at or above the cursor;
+      (R1) `ServerContent.ScratchIndepI` (Proofs/ServerAnswerTwoRunI.lean, above) — next to an invariant
+           state with a valid hint, a writer call of the answering phase does not read octets at or
+           above the cursor;
       (R2) `ServerContent.DecodeCongr` (Proofs/ServerSignedCompare.lean) — two `Good` writers with the
            same body (own additional records: address records) that agree on everything below the
            cursor up to the room, the TSIG slot and ARCOUNT + 1 (`modS L T F2 = lift R t0 ∧ Same F1 t0`)
@@ -256,7 +267,7 @@
       wants; when it failed, both views are SERVFAIL with empty sections and the signed additional
       section holds only the OPT and the TSIG record.
 
-  Proved: (a)–(o), and `C10_full_of : ScratchIndep → DecodeCongr → C10_full`.  Not proved, precisely: the two
+  Proved: (a)–(o), and `C10_full_of : ScratchIndepI → DecodeCongr → C10_full`.  Not proved, precisely: the two
   named hypotheses (R1), (R2) above.  History of the reduction (all closed modulo (R1), (R2)):
   (1) `C10_row3` — the one obligation `C10_full` is reduced to (`C10_of_row3`): an authenticated request
       that a loaded zone *answers* passes the audit.  Everything that does not depend on the row is in
@@ -2016,14 +2027,15 @@ theorem C10_row3_of_compare (hc : C10_row3_compare) : C10_row3 := by
 
 open QV.ServerScan in
 /-- **the comparison clause, modulo two named writer / decoder hypotheses**: `C10_row3_compare` holds as
-    soon as `ServerAnswer.ScratchIndep` (a writer call of the answering phase does not read octets at or
-    above the cursor; Proofs/ServerAnswerTwoRun.lean) and `ServerContent.DecodeCongr` (two finished
+    soon as `ServerContent.ScratchIndepI` (next to a state satisfying the writer's invariant, with a valid
+    hint, a writer call of the answering phase does not read octets at or above the cursor;
+    Proofs/ServerAnswerTwoRunI.lean) and `ServerContent.DecodeCongr` (two finished
     `Good` writers that agree below the cursor decode to the same records; Proofs/ServerSignedCompare.lean)
     do.  Everything else — the two runs start from the same scan state (`plain_answer_run`), the
     signed run shows the same view as the plain one under the clause's guards
     (`signed_handler_eq_plain`), the guards on the decodings are the guards on the views, the room the
     audit computes is the writer's — is proved (`ServerContent.compare_core`). -/
-theorem C10_row3_compare_of (hSI : ServerAnswer.ScratchIndep) (hDC : ServerContent.DecodeCongr) : C10_row3_compare := by
+theorem C10_row3_compare_of (hSI : ServerContent.ScratchIndepI) (hDC : ServerContent.DecodeCongr) : C10_row3_compare := by
   intro cfg cat tr now req hnow hcfg hpay hp16 hreq hk nowT t mw r' question d kn alg rest h hrow b hb dm pb pd
     hdm hpl hpd htc hptc hcmp hroom hrc2
   obtain ⟨hrM, iq, ie, il⟩ := h.scanM
@@ -2084,9 +2096,9 @@ theorem C10_of_row3 (h3 : C10_row3) : C10_full := by
       (Or.inl (by cases hh : (Spec.Server.specScan cat cfg.payload req).respond <;> simp_all))
 
 /-- **`C10_full`, modulo the two named hypotheses**: every clause of the audit, for every configuration,
-    transport, clock and request, holds as soon as `ScratchIndep` (writer) and `DecodeCongr`
+    transport, clock and request, holds as soon as `ScratchIndepI` (writer) and `DecodeCongr`
     (`finish` + decoder) do — the whole server-side walk is proved. -/
-theorem C10_full_of (hSI : ServerAnswer.ScratchIndep) (hDC : ServerContent.DecodeCongr) : C10_full :=
+theorem C10_full_of (hSI : ServerContent.ScratchIndepI) (hDC : ServerContent.DecodeCongr) : C10_full :=
   C10_of_row3 (C10_row3_of_compare (C10_row3_compare_of hSI hDC))
 
 /-! ## non-vacuity: concrete instances of the hypotheses used above -/
